@@ -9,7 +9,8 @@
 //     all : for every sheet name in order  namehex=<range>  joined by '&', then "##" and the same
 //        for worksheets()
 //   Output fields joined by ";;".  Open failure: "openerr".  Errors: "err".
-//   norm <hex>    read_workbook's target normalisation is private: not hooked, exercised through files
+//   groc <hex>    get_row_and_optional_column through the existing hook -> ok:r,c | ok:r,- | err
+//   (read_workbook's target normalisation is private and not hooked: exercised through files)
 use crate::util::*;
 use calamine::{Data, DataRef, HeaderRow, Range, Reader, ReaderRef, Xlsx};
 use std::io::Cursor;
@@ -134,6 +135,11 @@ pub fn run(args: &[&str]) -> String {
             }
             out.join(";;")
         }
+        ["groc", h] => match calamine::verif_hooks::xlsx::get_row_and_optional_column(&unhex(h)) {
+            Ok((r, Some(c))) => format!("ok:{},{}", r, c),
+            Ok((r, None)) => format!("ok:{},-", r),
+            Err(_) => "err".to_string(),
+        },
         _ => "bad-args".to_string(),
     }
 }
